@@ -135,9 +135,15 @@ def run(tier, replay=None):
         rep.violation(d["id"], f"tree [{d['id']}]: specification prescribes {d['expected']}; folded rendering: {fo['status']} {(fo['vals'] or fo['val']) if fo['status']=='ok' else (fo['diag'] or fo['err'])[-140:]!r}; unfolded rendering: {un['status']} {(un['vals'] or un['val']) if un['status']=='ok' else (un['diag'] or un['err'])[-140:]!r}",
                       dict(case=c["id"], expected=d["expected"], folded=fo, unfolded=un, files={"folded.ms": c["folded_src"], "unfolded.ms": c["unfolded_src"]}))
     skips = len(r.prints.get("SKIP", []))
-    rep.coverage = dict(
+    # ---- the unfolded renderings one level down: every instruction of the run (make_bigint / make_byte / make_float, bin_op and
+    # neg on the numeric tower, with the value on top of the operand stack after each) must be a step of the value machine MSVMV
+    from .. import vmv
+    vpool = [dict(id=c["id"], src=c["unfolded_src"]) for c in cases if c["unfolded"]["status"] in ("ok", "fail")]
+    vres = vmv.stage(binary, work / "vmv", vpool, 600 if tier == "quick" else 8000, random.Random(rep.seed))
+    vcov = vmv.report(rep, vres, "unfolded expression tree")
+    rep.coverage = dict(**vcov, traces_validated_against_impl=vres["recorded"],
         programs=2 * len(cases), disagreements_checked=len(r.prints.get("DISAGREE", [])), trees=len(cases), out_of_model_or_ill_typed=skips,
-        states=r.distinct + g1.distinct, transitions=r.generated + g1.generated,
+        states=r.distinct + g1.distinct + vres["states"], transitions=r.generated + g1.generated + vres["transitions"],
         evaluations=len(cases), distinct_nontrivial=len(cases) - skips,
         rule="GenExpr.tla: every tree with at most one operator level over the literal set (quick: 10 literals, thorough: 27) x {+ - * / % << >> & | xor, unary minus, get, or} incl. two-element lists, plus seeded -simulate trees up to depth 3 below the root; each rendered folded and unfolded",
         samples=[dict(tree=c["id"], folded=c["folded_src"].split("\n")[1], unfolded_status=c["unfolded"]["status"], value=c["unfolded"]["val"]) for c in cases[:: max(1, len(cases) // 3)][:3]],
